@@ -5,11 +5,14 @@ package vlib
 
 import (
 	"bufio"
+	"errors"
 	"fmt"
 	"os"
 	"regexp"
 	"strconv"
 	"strings"
+
+	"github.com/ecodeclub/ekit/internal/errs"
 )
 
 // Rng is splitmix64.
@@ -82,16 +85,82 @@ func Hash(xs []int) uint64 {
 	return h
 }
 
-var idxRe = regexp.MustCompile(`下标超出范围，长度 (-?\d+), 下标 (-?\d+)`)
+var digitsRe = regexp.MustCompile(`\d+`)
+
+// intCand is one reading of a digit run of a message (run = index of the run in the message).
+type intCand struct {
+	run int
+	v   int64
+}
+
+// intCands lists the integers that occur in msg in order of appearance. A digit run directly preceded
+// by '-' is read both as the negative and as the plain number (the '-' may be punctuation).
+func intCands(msg string) []intCand {
+	var out []intCand
+	for k, loc := range digitsRe.FindAllStringIndex(msg, 64) {
+		if loc[0] > 0 && msg[loc[0]-1] == '-' {
+			if v, err := strconv.ParseInt(msg[loc[0]-1:loc[1]], 10, 64); err == nil {
+				out = append(out, intCand{k, v})
+			}
+		}
+		if v, err := strconv.ParseInt(msg[loc[0]:loc[1]], 10, 64); err == nil {
+			out = append(out, intCand{k, v})
+		}
+	}
+	return out
+}
+
+// MatchInts1 looks for an integer a occurring in msg such that build(a) == msg. It is how the
+// harnesses recognise an error made by a one-integer constructor of the library WITHOUT knowing the
+// wording of its message: the error is re-built by the library's own constructor and compared.
+func MatchInts1(msg string, build func(a int64) string) (int64, bool) {
+	for _, c := range intCands(msg) {
+		if build(c.v) == msg {
+			return c.v, true
+		}
+	}
+	return 0, false
+}
+
+// MatchInts2 is MatchInts1 for a two-integer constructor: ordered pairs of integers taken from two
+// different digit runs of msg, in order of appearance first.
+func MatchInts2(msg string, build func(a, b int64) string) (int64, int64, bool) {
+	cs := intCands(msg)
+	for pass := 0; pass < 2; pass++ {
+		for i, a := range cs {
+			for j, b := range cs {
+				if a.run == b.run || (pass == 0) != (i < j) {
+					continue
+				}
+				if build(a.v, b.v) == msg {
+					return a.v, b.v, true
+				}
+			}
+		}
+	}
+	return 0, 0, false
+}
+
+// IdxErr reports whether err is (or wraps) the error errs.NewErrIndexOutOfRange(length, index) builds,
+// by re-building it from the integers of the message (independent of the message's wording).
+func IdxErr(err error) (length, index int64, ok bool) {
+	for e := err; e != nil; e = errors.Unwrap(e) {
+		if a, b, ok := MatchInts2(e.Error(), func(a, b int64) string {
+			return errs.NewErrIndexOutOfRange(int(a), int(b)).Error()
+		}); ok {
+			return a, b, true
+		}
+	}
+	return 0, 0, false
+}
 
 // Err canonicalises an error value to the small enum the models use.
 func Err(err error) string {
 	if err == nil {
 		return "ok"
 	}
-	msg := err.Error()
-	if m := idxRe.FindStringSubmatch(msg); m != nil {
-		return "err:idx:" + m[1] + ":" + m[2]
+	if a, b, ok := IdxErr(err); ok {
+		return "err:idx:" + strconv.FormatInt(a, 10) + ":" + strconv.FormatInt(b, 10)
 	}
 	return "err:other"
 }
